@@ -1563,7 +1563,9 @@ class WasmToIrCompiler:
         test_value = self.pop_value()
         assert test_value.ty in [ir.i32, ir.i64]
         ir_typ = test_value.ty
-        option_labels = instruction.args[0]
+        # Work on a copy: the instruction belongs to the wasm module, which
+        # may be instantiated or written again.
+        option_labels = list(instruction.args[0])
         default_label = option_labels.pop(-1)
         for i, option_label in enumerate(option_labels):
             # Figure which block we must jump to:
